@@ -280,7 +280,7 @@ pub struct Ctx {
     /// frames that are expected to be all zero although they are not tables (released tables)
     pub zeroed: BTreeSet<u64>,
     /// per step: normalised result string (for the cross-backend comparison)
-    pub results: Vec<String>,
+    pub results: Vec<(usize, String)>,
     pub labels: Vec<String>,
     pub shape: Vec<(u8, u8, u8)>,
     pub step: usize,
@@ -543,7 +543,7 @@ where
                 if !r.is_panic() {
                     fail!(T_C01, "step {} ({:?}): identity_map of frame {:#x} (>= 2^47, no identical canonical address) returned {:?} instead of panicking", ctx.step, ctx.backend, frame, r);
                 }
-                ctx.results.push("identity-panic".into());
+                ctx.results.push((ctx.step, "identity-panic".into()));
                 ctx.check_memory(true, &new_tables)?;
                 return Ok(());
             }
@@ -667,7 +667,7 @@ where
                 Outcome::Ret(r) => r,
                 Outcome::Panic(msg) => fail!(if exp == Exp::Ok { T_C01 } else { T_C02 }, "{} panicked: {}", what, msg),
             };
-            ctx.results.push(format!("{:?}", r));
+            ctx.results.push((ctx.step, format!("{:?}", r)));
             // apply what the implementation was allowed / required to do to the model
             let allocs: Vec<u64> = ctx.alloc.log.iter().filter_map(|e| if let AllocEvent::Alloc(Some(f)) = e { Some(*f) } else { None }).collect();
             new_tables = allocs.iter().copied().collect();
@@ -797,7 +797,7 @@ where
                 Outcome::Ret(r) => r,
                 Outcome::Panic(msg) => fail!(T_C02, "{} panicked: {}", what, msg),
             };
-            ctx.results.push(format!("{:?}", r));
+            ctx.results.push((ctx.step, format!("{:?}", r)));
             match (st, &r) {
                 (State::Mapped { raw }, Ok((f, p))) => {
                     let size = model::size_of_level(lvl);
@@ -850,7 +850,7 @@ where
                 Outcome::Ret(r) => r,
                 Outcome::Panic(msg) => fail!(T_C02, "{} panicked: {}", what, msg),
             };
-            ctx.results.push(format!("{:?}", r));
+            ctx.results.push((ctx.step, format!("{:?}", r)));
             match (st, &r) {
                 (State::Mapped { raw }, Ok(p)) => {
                     if *p != va {
@@ -941,7 +941,7 @@ where
                 Outcome::Ret(r) => r,
                 Outcome::Panic(msg) => fail!(T_C02, "{} panicked: {}", what, msg),
             };
-            ctx.results.push(format!("{:?}", r));
+            ctx.results.push((ctx.step, format!("{:?}", r)));
             match (exp, &r) {
                 (Exp::Ok, Ok(())) => {
                     let i = model::idx(va, tl);
@@ -974,7 +974,7 @@ where
                 allowed = Some(ctx.rec_pages(va));
             }
             let s = translate_page_check(ctx, m, va, lvl)?;
-            ctx.results.push(s);
+            ctx.results.push((ctx.step, s));
             after_err = true;
             let st = ctx.model.state(va, lvl);
             outcome_class = state_class(&st);
@@ -995,7 +995,7 @@ where
                 allowed = Some(ctx.rec_pages(va));
             }
             let s = translate_check(ctx, m, va)?;
-            ctx.results.push(s);
+            ctx.results.push((ctx.step, s));
             after_err = true;
         }
         MOp::CleanUp | MOp::CleanUpRange { .. } => {
@@ -1268,7 +1268,7 @@ where
             fail!(T_C10, "{}: translation of {:#x} changed", what, a);
         }
     }
-    ctx.results.push(format!("freed{:x?}", freed));
+    ctx.results.push((ctx.step, format!("freed{:x?}", freed)));
     if !freed.is_empty() && ctx.model.tables().len() > 1 {
         ctx.nontrivial |= T_C10;
         ctx.labels.push("cleanup-freed-some-left-some".into());
@@ -1322,7 +1322,7 @@ fn remove_table(t: &mut Table, frame: u64) -> bool {
 // ------------------------------------------------------------------------------------------------
 
 pub struct BackendRun {
-    pub results: Vec<String>,
+    pub results: Vec<(usize, String)>,
     pub fail: Option<Fail>,
     pub labels: Vec<String>,
     pub shape: Vec<(u8, u8, u8)>,
@@ -1592,18 +1592,14 @@ pub fn run_case(case: &MapCase, enabled: u32, obs: &mut Obs) -> CaseResult {
     // identical results across implementations (same history, same allocator decisions)
     if !stopped && enabled & T_C02 != 0 {
         let (a, b, c) = (&runs[0].1, &runs[1].1, &runs[2].1);
-        let n = a.results.len().min(b.results.len());
-        for i in 0..n {
-            if a.results[i] != b.results[i] {
-                return Err(format!("[C02] op #{} {:?}: MappedPageTable returned {} but OffsetPageTable returned {}", i, case.ops.get(i), a.results[i], b.results[i]));
-            }
-        }
-        // the recursive run may skip ops on the recursive slot and adds PRESENT|WRITABLE to parents:
-        // compare only when no op was skipped
-        if c.results.len() == a.results.len() {
-            for i in 0..a.results.len() {
-                if a.results[i] != c.results[i] {
-                    return Err(format!("[C02] op #{} {:?}: MappedPageTable returned {} but RecursivePageTable returned {}", i, case.ops.get(i), a.results[i], c.results[i]));
+        let am: BTreeMap<usize, &String> = a.results.iter().map(|(i, s)| (*i, s)).collect();
+        for (other, name) in [(b, "OffsetPageTable"), (c, "RecursivePageTable")] {
+            for (i, r) in &other.results {
+                // (the recursive run skips calls whose page lies under the recursive slot)
+                if let Some(ra) = am.get(i) {
+                    if *ra != r {
+                        return Err(format!("[C02] op #{} {:?}: MappedPageTable returned {} but {} returned {}", i, case.ops.get(*i), ra, name, r));
+                    }
                 }
             }
         }
@@ -1614,7 +1610,8 @@ pub fn run_case(case: &MapCase, enabled: u32, obs: &mut Obs) -> CaseResult {
     if ex > 0 {
         obs.exclude("C01-huge-leaf-with-PAT-bit-cannot-be-unmapped");
     }
-    for (i, r) in a.results.iter().take(16).enumerate() {
+    for (i, r) in a.results.iter().take(16) {
+        let i = *i;
         obs.notes.push(format!("#{} {:?} -> {}", i, case.ops.get(i).map(|o| format!("{:?}", o)).unwrap_or_default().chars().take(60).collect::<String>(), r.chars().take(80).collect::<String>()));
     }
     for (b, r) in &runs {
